@@ -426,6 +426,122 @@ def real_direction(c):
     return ["ret", fval(f(c["x1"], c["x2"], c["y1"], c["y2"]))]
 
 
+# ---- the red-black status tree of viewshed.py: a case is the arrays after a random history built with the real
+# routines, plus one final operation
+VS_N = 12
+
+
+def vs_mod():
+    return importlib.import_module("xrspatial.viewshed")
+
+
+def vs_value(rng, key):
+    g = sorted(float(rng.randint(-8, 8)) / 2 for _ in range(3))
+    rng.shuffle(g)
+    a0 = float(rng.randint(0, 20)) / 4
+    return [float(key), g[0], g[1], g[2], a0, a0 + 0.25, a0 + 0.5, 0.0]
+
+
+def vs_build(rng, n_ops):
+    v = vs_mod()
+    tv = np.zeros((VS_N, 8), dtype=np.float64)
+    tn = np.zeros((VS_N, 4), dtype=np.int64)
+    root = int(v._create_status_struct(tv, tn))
+    free = list(range(1, VS_N - 1))
+    keys = []
+    for _ in range(n_ops):
+        if keys and (rng.random() < 0.35 or not free):
+            k = keys.pop(rng.randrange(len(keys)))
+            root, d = v._delete_from_tree(tv, tn, root, float(k))
+            root = int(root)
+            free.append(int(d))
+        elif free:
+            k = rng.choice([x for x in range(1, 40) if x not in keys])
+            nid = free.pop(rng.randrange(len(free)))
+            root = int(v._insert_into_tree(tv, tn, root, nid, np.array(vs_value(rng, k))))
+            keys.append(k)
+    return tv, tn, root, free, keys
+
+
+def gen_vs(op):
+    def gen(rng):
+        tv, tn, root, free, keys = vs_build(rng, rng.randint(0, 14))
+        c = dict(op=op, tv=tv.tolist(), tn=tn.tolist(), root=root)
+        if op == "insert":
+            if not free:
+                keys_ = keys
+                tv, tn, root, free, keys = vs_build(rng, 3)
+                c.update(tv=tv.tolist(), tn=tn.tolist(), root=root)
+            k = rng.choice([x for x in range(1, 40) if x not in keys])
+            c.update(node_id=rng.choice(free), value=vs_value(rng, k))
+        elif op in ("delete", "search"):
+            present = bool(keys) and rng.random() < 0.8
+            c.update(key=float(rng.choice(keys)) if present else float(rng.choice([x for x in range(1, 40) if x not in keys])))
+            if op == "delete" and not present:
+                c["absent"] = True
+        elif op == "query":
+            present = bool(keys)
+            c.update(key=float(rng.choice(keys)) if present else 5.0, ang=float(rng.randint(0, 22)) / 4,
+                     grad=float(rng.randint(-8, 8)) / 2)
+        elif op in ("min", "succ", "fvmin"):
+            used = [i for i in range(VS_N - 1) if i not in free]
+            c.update(x=rng.choice(used))
+        elif op in ("lrot", "rrot"):
+            side = 2 if op == "lrot" else 1
+            cand = [i for i in range(1, VS_N - 1) if i not in free and tn[i, side] != -1]
+            c.update(x=rng.choice(cand) if cand else None)
+        return c
+    return gen
+
+
+def line_vs(c):
+    base = f"af.tree_vals={farr(c['tv'])} ai.tree_nodes={iarr(c['tn'])} "
+    op = c["op"]
+    if op == "insert":
+        return base + f"i.root={c['root']} i.node_id={c['node_id']} af.value={farr(c['value'])}"
+    if op in ("delete", "search"):
+        return base + f"i.root={c['root']} f.key={fval(c['key'])}"
+    if op == "query":
+        return base + f"i.root={c['root']} f.distance={fval(c['key'])} f.angle={fval(c['ang'])} f.gradient={fval(c['grad'])}"
+    if op == "fvmin":
+        return f"af.tree_vals={farr(c['tv'])} i.node_id={c['x']}"
+    if op in ("min", "succ"):
+        return f"ai.tree_nodes={iarr(c['tn'])} i.x={c['x']}"
+    if op == "lrot":
+        return base + f"i.root={c['root']} i.x={c['x'] if c['x'] is not None else 0}"
+    return base + f"i.root={c['root']} i.y={c['x'] if c['x'] is not None else 0}"
+
+
+def real_vs(c):
+    v = vs_mod()
+    tv, tn = np.array(c["tv"], dtype=np.float64), np.array(c["tn"], dtype=np.int64)
+    op = c["op"]
+    if op == "insert":
+        val = np.array(c["value"], dtype=np.float64)
+        root = v._insert_into_tree(tv, tn, c["root"], c["node_id"], val)
+        return ["ret", str(int(root)), farr(tv), iarr(tn), farr(val)]
+    if op == "delete":
+        if c.get("absent"):
+            return ["err", "ValueError"]
+        root, d = v._delete_from_tree(tv, tn, c["root"], c["key"])
+        return ["ret", str(int(root)), str(int(d)), farr(tv), iarr(tn)]
+    if op == "search":
+        return ["ret", str(int(v._search_for_node(tv, tn, c["root"], c["key"]))), farr(tv), iarr(tn)]
+    if op == "query":
+        return ["ret", fval(v._max_grad_in_status_struct(tv, tn, c["root"], c["key"], c["ang"], c["grad"])), farr(tv), iarr(tn)]
+    if op == "fvmin":
+        return ["ret", fval(v._find_value_min_value(tv, c["x"])), farr(tv)]
+    if op == "min":
+        return ["ret", str(int(v._tree_minimum(tn, c["x"]))), iarr(tn)]
+    if op == "succ":
+        return ["ret", str(int(v._tree_successor(tn, c["x"]))), iarr(tn)]
+    if c["x"] is None:
+        return ["skip"]
+    f = v._left_rotate if op == "lrot" else v._right_rotate
+    root = f(tv, tn, c["root"], c["x"])
+    return ["ret", str(int(root)), farr(tv), iarr(tn)]
+
+
 # programs whose numeric results go through libm / float32 rounding: compared within this relative tolerance
 TOL = {"calcDirection": 1e-6, "processNumpy": 1e-6}
 
@@ -444,6 +560,15 @@ SPECS = {
     "convolve2d": (gen_convolve, line_convolve, real_convolve),
     "processNumpy": (gen_process, line_process, real_process),
     "calcDirection": (gen_direction, line_direction, real_direction),
+    "vsInsert": (gen_vs("insert"), line_vs, real_vs),
+    "vsDelete": (gen_vs("delete"), line_vs, real_vs),
+    "vsSearch": (gen_vs("search"), line_vs, real_vs),
+    "vsQuery": (gen_vs("query"), line_vs, real_vs),
+    "vsFindValueMin": (gen_vs("fvmin"), line_vs, real_vs),
+    "vsTreeMinimum": (gen_vs("min"), line_vs, real_vs),
+    "vsTreeSuccessor": (gen_vs("succ"), line_vs, real_vs),
+    "vsLeftRotate": (gen_vs("lrot"), line_vs, real_vs),
+    "vsRightRotate": (gen_vs("rrot"), line_vs, real_vs),
 }
 
 
@@ -537,6 +662,8 @@ def stream(r, progs, n, driver=None):
         for c, rv, rep in zip(cases, reals, replies):
             key = dict(prog=prog, case=c)
             r.case(key, desc=f"il:{prog} {str(c)[:120]}", nontrivial=True, tags=[f"il:{prog}"])
+            if rv[0] == "skip":
+                continue
             if rv[0] == "err":
                 ok = rep.startswith("err:")
             else:
